@@ -422,7 +422,7 @@ func (m *quotaMonitor) onPrepared(c *Ctx, p *genetics.Population, sorted []*gene
 		// within 4 ulp of an integer the neighbouring value is accepted too (survival_thresh*n + 1.0 may round across it)
 		x := o.SurvivalThresh * float64(nmem)
 		want := int(math.Floor(x)) + 1
-		alt := int(math.Floor(x+1.0))
+		alt := int(math.Floor(x + 1.0))
 		if rx := math.Round(x); rx != x && math.Abs(x-rx) <= 4e-16*math.Max(1, math.Abs(x)) {
 			alt = int(rx) + 1
 		}
